@@ -14,7 +14,7 @@ import json, os, concurrent.futures as cf
 from vlib.common import *
 from checks.C15 import _absorb
 
-NEG = [("CrossDropsCA", "CrossKeepsCA"), ("CopyAlways", "RequestDecidesNothing"), ("SkipPop", "ProofOfPossession"), ("KeepRequestedSki", "KeyBinding"),
+NEG = [("CrossDropsCA", "CrossKeepsCA"), ("CopyAlways", "RequestDecidesNothing"), ("SkipPop", "ProofOfPossession"), ("WeakAlgTolerated", "ProofOfPossession"), ("KeepRequestedSki", "KeyBinding"),
        ("CsrCaWithoutCopy", ("RequestDecidesNothing", "CaOnlyOnAuthority")), ("FlagsIgnoredOnCopy", "FlagsWin")]
 FINDINGS = [("CertIssue_Finding_Unknown.cfg", "UnknownSurvivesCross"), ("CertIssue_Finding_Aki.cfg", "AkiNeverStale")]
 
@@ -35,7 +35,7 @@ def run(t):
     tlc_must_pass(g, "CertIssue_Gen")
     run.add_tlc(g, "CertIssue gen")
     behs = g.beh
-    if len(behs) < 300000:
+    if len(behs) < 400000:
         raise NoVerdict(f"only {len(behs)} CertIssue behaviours")
     if t == "quick":   # a seeded third of the table (every mode and every refusal class is in every third)
         k = seed() % 3
@@ -68,7 +68,7 @@ def run(t):
     run.cov["rule"] = (f"{len(behs)} of the {len(g.beh)} complete behaviours of CertIssue_Gen ({'a seeded third' if t == 'quick' else 'all'}) on the real issuing functions: request / self-signed / "
                        "signed from a request (with and without --copy-extensions) / cross-signed; flags commonName, alternate-dns, key-usage {none, serverAuth, codeSigning, keyCertSign, "
                        "invalid}, cert-authority, serial {random, given, invalid}, rsa-pss; submitted object with alternative DNS / e-mail names, basicConstraints {absent, CA, not CA}, "
-                       "keyUsage, extKeyUsage, a private extension {absent, non-critical, critical}, a subjectKeyIdentifier chosen by the requester, signature valid or broken, PEM / DER / "
+                       "keyUsage, extKeyUsage, a private extension {absent, non-critical, critical}, a subjectKeyIdentifier chosen by the requester, signature valid, broken or claiming an algorithm the library refuses to evaluate, PEM / DER / "
                        "not an object at all; issuer key RSA / P-256 / P-384, issuer certificate with or without subjectKeyIdentifier. Compared: refusal (and that the issuing key had not "
                        "signed), every projected field of the issued object, signature under the issuing key, issuer name, validity for --expire-days 30. non-trivial = something is issued")
     run.cov["exhaustive"] = t != "quick"
